@@ -45,6 +45,9 @@ def encode(c, enc):
     op = c["op"]
     if c.get("nomodel"):
         return "skip"
+    if op == "po_points":
+        return " ".join(["po_points", str(len(c["times"]))] + [enc.time(t) for t in c["times"]] +
+                        [enc.time(c["a"]), enc.time(c["b"]), str(c["idx"])])
     if op == "find":
         return "find " + " ".join([str(len(c["labels"]))] + [enc.s(x) for x in c["labels"]]) + f" {enc.s(c['q'])} {enc.b(c['substr'])}"
     if op in ("nonentries", "itimestamps", "ptimestamps", "ivalidate", "pvalidate"):
@@ -91,6 +94,14 @@ def build_raw_tg(spec):
 
 def impl(c):
     op = c["op"]
+    if op == "po_points":
+        # PointObject.getPointsInInterval on real objects of the three classes (DESIGN 11.8); the 2-D classes carry a value
+        from praatio.data_classes.data_point import PointObject1D, PointObject2D
+        if c["cls"] == "PointProcess":
+            po = PointObject1D([(t,) for t in c["times"]], "PointProcess", 0, 100.0)
+        else:
+            po = PointObject2D([(t, 100.0 + k) for k, t in enumerate(c["times"])], c["cls"], 0, 100.0)
+        return T.call(lambda: po.getPointsInInterval(c["a"], c["b"], c["idx"]))
     if op == "find":
         t = IntervalTier("f", [], 0.0, float(len(c["labels"]) + 1))
         t._entries = [Interval(float(i), float(i) + 0.5, l) for i, l in enumerate(c["labels"])]
@@ -126,6 +137,8 @@ def impl(c):
 
 def render(c, r, enc):
     op = c["op"]
+    if op == "po_points":
+        return "err " + r[1] if r[0] == "err" else " ".join(["ok", str(len(r[1]))] + [enc.time(t) for t in r[1]])
     if c.get("nomodel"):
         return "ok skip"
     if r[0] == "err":
@@ -150,6 +163,22 @@ def render(c, r, enc):
 
 def oracle(c, r):
     op = c["op"]
+    if op == "po_points":
+        # exactly the times t with start <= t <= end among pointList[startIndex:] — for a point list in time order (what Praat
+        # writes; neither the constructors nor the file readers sort).  On a shuffled list the early `break` may hide points:
+        # outside every property's wording (PointQuery.points_unsorted_counterexample), there only soundness is required
+        if r[0] == "err":
+            return Failure({"op": op, "clause": "no-error", "exc": r[1]}, f"getPointsInInterval raised {r[1]}")
+        sl = c["times"][c["idx"]:]
+        want = [t for t in sl if c["a"] <= t <= c["b"]]
+        if c["times"] == sorted(c["times"]):
+            if r[1] != want:
+                return Failure({"op": op, "clause": "exactly-the-points-inside"}, f"got {r[1]} expected {want}")
+        else:
+            it = iter(want)
+            if not all(any(t == u for u in it) for t in r[1]):
+                return Failure({"op": op, "clause": "sound"}, f"got {r[1]}, not a subsequence of {want}")
+        return None
     sig = {"op": op}
     if op == "find":
         if c.get("regex"):
@@ -269,6 +298,11 @@ def oracle(c, r):
 
 
 def tags(c, r):
+    if c["op"] == "po_points":
+        srt = c["times"] == sorted(c["times"])
+        full = r[0] == "ok" and r[1] == [t for t in c["times"][c["idx"]:] if c["a"] <= t <= c["b"]]
+        return ["po_points", c["cls"], "sorted" if srt else "shuffled", "idx<0" if c["idx"] < 0 else "idx>=0"] + \
+               ([] if srt or full else ["shuffled:break-hid-points"])
     out = [c["op"]]
     if r[0] == "err":
         out.append("err:" + r[1])
@@ -281,6 +315,8 @@ def tags(c, r):
 
 
 def nontrivial(c, r):
+    if c["op"] == "po_points":
+        return r[0] == "ok" and len(r[1]) > 0
     if r[0] == "err":
         return True
     v = r[1]
@@ -338,7 +374,31 @@ def perturb_tier(rnd, t):
     return w, v, ok_eq
 
 
+def corpus():
+    # PointObject.getPointsInInterval: a tie and points on both window edges, negative startIndex; the shuffled list on which
+    # the early break hides two points (PointQuery.points_example / points_unsorted_counterexample)
+    yield {"op": "po_points", "cls": "PointProcess", "times": [1.0, 2.0, 2.0, 3.0, 5.0], "a": 2.0, "b": 3.0, "idx": -4, "grid": True}
+    yield {"op": "po_points", "cls": "PitchTier", "times": [5.0, 1.0, 2.0], "a": 0.0, "b": 3.0, "idx": 0, "grid": True}
+
+
+def gen_points(rnd, n):
+    for _ in range(n):
+        domain = rnd.choice(["dec", "grid64"])
+        k = rnd.randint(0, 7)
+        ts = T.gen_times(rnd, domain, k) if k else []
+        ts = sorted(ts + [rnd.choice(ts) for _ in range(rnd.randint(0, 2)) if ts])     # ties
+        if rnd.random() < 0.2:
+            rnd.shuffle(ts)
+        pool = ts + (T.gen_times(rnd, domain, 2) or [1.0]) + [0.0, 10.0]
+        a, b = rnd.choice(pool), rnd.choice(pool)                                      # window edges on points, too
+        if a > b and rnd.random() < 0.9:
+            a, b = b, a
+        yield {"op": "po_points", "cls": rnd.choice(["PointProcess", "PitchTier", "DurationTier"]), "times": ts, "a": a, "b": b,
+               "idx": rnd.randint(-len(ts) - 2, len(ts) + 2), "grid": domain != "dec"}
+
+
 def gen(rnd, tier):
+    yield from gen_points(rnd, 5000 if tier == "thorough" else 500)
     n = 8 if tier == "thorough" else 1
     alpha = ["a", "b", "ab", "ba", "A", "", "a.b", "aa"]
     for i in range(1500 * n):
